@@ -327,8 +327,13 @@ def wl_reads(ctx, idx, rng):
         sig, exc = ctx.call("read_model", r.read, o_arg, n_arg, where=f"{fx.name}.read({itype}({o}),{n})", features={"int_type": itype})
     else:
         ra0 = ctx.counters["read_array_calls"]
-        sig, exc = ctx.call("read_model", r.dask_read, o_arg, n_arg, where=f"{fx.name}.dask_read({itype}({o}),{n})",
-                            features={"path": "dask", "empty_read": n == 0})
+        dkw = {}
+        if n > 0 and rng.random() < 0.5:
+            # explicit chunks, possibly splitting the time axis
+            dkw["chunks"] = (int(rng.integers(1, n + 1)),) + tuple(int(rng.integers(1, d + 1)) for d in r.sample_shape)
+            desc["chunks"] = list(dkw["chunks"])
+        sig, exc = ctx.call("read_model", r.dask_read, o_arg, n_arg, where=f"{fx.name}.dask_read({itype}({o}),{n},{dkw})",
+                            features={"path": "dask", "empty_read": n == 0}, **dkw)
         if exc is None and ctx.counters["read_array_calls"] != ra0:
             ctx.violation("read_model", f"{fx.name}: dask_read touched the file while building the graph", None, {"what": "eager_dask"})
     if exc is None:
